@@ -229,7 +229,6 @@ class World:
             e = Expl("ehq", DF(vec, Unit(dim, fac, base)), Label(True, base), attached=o.key(attr), fresh_obj=False)
             e.owner, e.attr = o, attr
             I.eng.assume(vec.n >= 1)       # an hourly attribute holds at least one hour (an empty result is an EmptyExplainableObject)
-            I.index_facts(vec)
             return ExplU(fn(".empty", B), e)
         raise Unsupported(f"schema kind {kinds}")
 
@@ -238,6 +237,8 @@ class World:
         if n in self.classes: return IP.ClassRef(n)
         if n == "compute_nb_avg_hourly_occurrences":
             return ("repo_function", "efootprint.core.usage.compute_nb_occurrences_in_parallel.compute_nb_avg_hourly_occurrences")
+        if n == "create_hourly_usage_df_from_list":
+            return ("repo_function", "efootprint.builders.time_builders.create_hourly_usage_df_from_list")
         if n in ("ServerTypes",): return IP.ClassRef(n)
         return None
 
@@ -338,7 +339,7 @@ class World:
             eng.assume(n >= 0)
             v = SList(n, None, fam, unordered=unordered)
             v.elem_dims = {}
-            v.elem = lambda i, fam=fam, ecls=ecls, v=v: self.elem(fam, ecls, i, v.elem_dims)
+            v.elem = lambda i, fam=fam, ecls=ecls, v=v, I=I: self.elem(fam, ecls, i, v.elem_dims, I)
             hook = self.list_hooks.get((self.defining(o.cls, name, LISTS, LOOKUPS), name))
             if hook: hook(I, o, v)
             o.attrs[name] = v
@@ -353,9 +354,13 @@ class World:
             return self.invoke(I, o, k, mod, fn, [], {})
         return IP.BoundMethod(o, name)
 
-    def elem(self, fam, ecls, i, dims=None):
+    def elem(self, fam, ecls, i, dims=None, I=None):
+        i = z3.simplify(i) if z3.is_expr(i) else z3.IntVal(i)
+        key = ("elem", fam, i.get_id())
+        if I is not None and key in I.eng.run.cache: return I.eng.run.cache[key][1]
         o = self.new_obj(ecls, f"{fam}[{i}]", index=i, family=fam)
         o.dims = dims or {}
+        if I is not None: I.eng.run.cache[key] = (i, o)
         return o
 
     def defining(self, cname, attr, *tables):
